@@ -22,7 +22,8 @@ def model_line(d):
         preds, succs, phis, defs = b.get("Preds") or [], b.get("Succs") or [], b.get("Phis") or [], b.get("Defs") or []
         hasif = b.get("HasIf") and b.get("Op") in ("==", "!=") and not b.get("BarsNil")
         out += [len(preds)] + preds + [len(succs)] + succs + [len(phis)] + phis + [len(defs)] + defs
-        out += [int(bool(hasif)), int(b.get("Op") == "=="), max(b.get("X", -1), 0), max(b.get("Y", -1), 0)]
+        # `(x == y) == false` and the like: the branch is the inner comparison, negated
+        out += [int(bool(hasif)), int((b.get("Op") == "==") != bool(b.get("Negated"))), max(b.get("X", -1), 0), max(b.get("Y", -1), 0)]
         out += [int(bool(b.get("EndsReturn"))), max(b.get("Ret", -1), 0)]
     return " ".join(map(str, out))
 
